@@ -155,7 +155,7 @@ func runProp(prop string) int {
 	rr := &runResult{deps: map[string]bool{}, ctxOf: map[*Obl]*Ctx{}}
 	// quick: generous relative to the slowest obligation on the unchanged tree (< 4 s), so that a
 	// loaded machine does not turn a proof into a timeout
-	timeout := 30
+	timeout := 45
 	if *flagTier == "thorough" {
 		timeout = 120
 	}
